@@ -113,3 +113,25 @@ def gen_topk(items):
                 raise Fail(f'{path2}: {what}: shape not found (Proofs/WandHeap.lean::heapCb / heapCbA mirror it)')
         return D('COLLECTOR_SHAPE', 1, 'per-segment capacity = doc_range.end on both entry points; merge = sort all fruits, skip, take; score path = TopNHeap callback (deletes-aware)')
     items.append(collector_shape)
+    def comparator_shape():
+        # the comparators on optional keys (Model/LazyKey.lean::natOpt / revOpt / revNoneLower / natNoneHigher / ofOrder mirror them)
+        path = 'src/collector/sort_key/order.rs'
+        flat = re.sub(r'\s+', '', strip_comments(src(path)))
+        want = {
+            'NaturalComparator = partial_cmp(..).unwrap_or(Equal)': 'lhs.partial_cmp(rhs).unwrap_or(Ordering::Equal)',
+            'ReverseComparator = Natural with the arguments swapped': 'NaturalComparator.compare(rhs,lhs)',
+            'ReverseNoneIsLowerComparator on Option':
+                'match(lhs_opt,rhs_opt){(None,None)=>Ordering::Equal,(None,Some(_))=>Ordering::Less,(Some(_),None)=>Ordering::Greater,(Some(lhs),Some(rhs))=>ReverseComparator.compare(lhs,rhs),}',
+            'NaturalNoneIsHigherComparator on Option':
+                'match(lhs_opt,rhs_opt){(None,None)=>Ordering::Equal,(None,Some(_))=>Ordering::Greater,(Some(_),None)=>Ordering::Less,(Some(lhs),Some(rhs))=>NaturalComparator.compare(lhs,rhs),}',
+            'From<Order>: Asc => ReverseNoneLower, Desc => Natural':
+                'matchorder{Order::Asc=>ComparatorEnum::ReverseNoneLower,Order::Desc=>ComparatorEnum::Natural,}',
+            'ComparatorEnum dispatch':
+                'matchself{ComparatorEnum::Natural=>NaturalComparator.compare(lhs,rhs),ComparatorEnum::Reverse=>ReverseComparator.compare(lhs,rhs),ComparatorEnum::ReverseNoneLower=>ReverseNoneIsLowerComparator.compare(lhs,rhs),ComparatorEnum::NaturalNoneHigher=>NaturalNoneIsHigherComparator.compare(lhs,rhs),}',
+            'pair comparator = head.then_with(tail)': 'self.0.compare(&lhs.0,&rhs.0).then_with(||self.1.compare(&lhs.1,&rhs.1))',
+        }
+        for what, frag in want.items():
+            if frag not in flat:
+                raise Fail(f'{path}: {what}: shape not found')
+        return D('COMPARATOR_SHAPE', 1, 'order.rs: Natural / Reverse / ReverseNoneIsLower / NaturalNoneIsHigher on Option, From<Order>, ComparatorEnum dispatch, pair = head.then_with(tail)')
+    items.append(comparator_shape)
